@@ -145,6 +145,9 @@ Proof. exact j2_second_small. Qed.
 Theorem C14_j2_third_small : forall t0 v (x : Dual3 R), Rep3 t0 v x -> Rabs (v t0) < lk (T:=R) L_bessel_j2 0 ->
   Rep3 t0 (fun t => bessel_j2 (T:=R) (v t)) (bessel_j2 x).
 Proof. exact j2_third_small. Qed.
+Theorem C14_j2_derivative_rec_mid : forall t0 v (x : Dual R), Rep1 t0 v x -> 1 / 4 < v t0 < 5 ->
+  Rep1 t0 (fun t => bessel_j2 (T:=R) (v t)) (bessel_j2 x).
+Proof. exact j2_derivative_rec_mid. Qed.
 Example C14_example_second : Rep2 2 (fun t => t) (mkDual2 2 1 0) /\ lk (T:=R) L_bessel_j0 1 < 2 < lk (T:=R) L_bessel_j0 0.
 Proof. exact example_c14_second. Qed.
 
@@ -152,5 +155,5 @@ Definition C14_bundle := (C14_polevl_spec, C14_p1evl_spec, C14_j0_small_derivati
   C14_j1_mid_derivative, C14_j2_series_derivative, C14_j0_derivative_mid, C14_j0_derivative_outer, C14_j1_derivative_mid, C14_j2_derivative_small, C14_switch_points, C14_denominators_positive, C14_j0_branches, C14_j2_branches, C14_j0_even, C14_j1_odd, C14_j2_even,
   C14_BranchOK_meaning, C14_j0_small_all_orders, C14_j0_mid_all_orders, C14_j0_asym_all_orders, C14_j1_mid_all_orders, C14_j1_asym_positive, C14_j1_asym_all_orders,
   C14_j2_series_all_orders, C14_j2_recurrence_all_orders, C14_j0_second_mid, C14_j0_second_outer, C14_j0_third_mid, C14_j0_third_outer, C14_j1_second_mid,
-  C14_j1_third_mid, C14_j2_second_small, C14_j2_third_small).
+  C14_j1_third_mid, C14_j2_second_small, C14_j2_third_small, C14_j2_derivative_rec_mid).
 Print Assumptions C14_bundle.
